@@ -344,9 +344,9 @@ pub fn run(cfg: &RunCfg) -> PropResult {
             exhaustive_case(set, n, max_len, format!("e{set}:{n}"))
         });
         let ns = if cfg.thorough { 250_000 } else { 3_000 };
-        r.merge(run_parallel(ns, workers(), |i| sampled_case(cfg.seed, i)));
+        r.merge(crate::report::run_parallel_tagged('s', ns, workers(), |i| sampled_case(cfg.seed, i)));
         let nw = if cfg.thorough { 500_000 } else { 10_000 };
-        r.merge(run_parallel(nw, workers(), |i| wide_case(cfg.seed, i)));
+        r.merge(crate::report::run_parallel_tagged('w', nw, workers(), |i| wide_case(cfg.seed, i)));
         r.extra.insert("exhaustive_slice".into(), J::from(format!("bar widths 0..=64 x lengths 0..=64 x positions 0..=len+1 x {} character sets", sets.len())));
         r
     };
